@@ -8,6 +8,11 @@ package modzip
 // name of a zip entry with the directory marker removed
 //@ spec func trimSlash(s string) string { ite(len(s) >= 1 && s[len(s)-1] == '/', s[:len(s)-1], s) }
 
+// an entry that Unzip extracts (its name does not end in "/") has a declared size
+// within the limits: "oversized module or licence files" are rejected
+//@ spec func isDirName(s string) bool { len(s) >= 1 && s[len(s)-1] == '/' }
+//@ spec func sizeOK(name string, sz uint64) bool { sz <= MaxZipFile && (name == "LICENSE" ==> sz <= MaxLICENSE) && (name == "cue.mod/module.cue" ==> sz <= MaxCUEMod) }
+
 //@ func (CheckedFiles).Err
 //@   ensures result == nil ==> len(cf.Invalid) == 0 && cf.SizeError == nil && cf.NoModError == nil
 
@@ -29,7 +34,10 @@ package modzip
 //@ func CheckZip
 //@   loop 0 invariant -1 <= rangeindex && rangeindex < len(z.File)
 //@   loop 0 invariant len(cf.Invalid) == 0 ==> forall k int :: 0 <= k && k <= rangeindex ==> module.safeRel(trimSlash(z.File[k].Name))
+//@   loop 0 invariant 0 <= size && size <= MaxZipFile
+//@   loop 0 invariant len(cf.Invalid) == 0 && cf.SizeError == nil ==> forall k int :: 0 <= k && k <= rangeindex && !isDirName(z.File[k].Name) ==> sizeOK(z.File[k].Name, z.File[k].UncompressedSize64)
 //@   ensures result3 == nil ==> result0 != nil && forall k int :: 0 <= k && k < len(result0.File) ==> module.safeRel(trimSlash(result0.File[k].Name))
+//@   ensures [sizes] result3 == nil ==> forall k int :: 0 <= k && k < len(result0.File) && !isDirName(result0.File[k].Name) ==> sizeOK(result0.File[k].Name, result0.File[k].UncompressedSize64)
 //@   assigns heap
 
 // (P) C15: extraction creates files only at Join(dir, name) for a safe relative
